@@ -65,17 +65,21 @@ contract(T + 'lookup_typenode',
          params={'self': 'Transformer', 'typeobj': 'Type'},
          returns='Node?', pure_keys=['typeobj.target_giname'], trusted=True,
          raises={'KeyError': 'maybe'},
-         ensures={'no_giname_none': "implies(not typeobj.target_giname, result is None)"},
+         ensures={'no_giname_none': "implies(not typeobj.target_giname, result is None)",
+                  'registered': "result is None or result.namespace is not None",
+                  'same_as_by_name': "implies(bool(typeobj.target_giname), result is self.lookup_giname(typeobj.target_giname))"},
          note='namespace tables are not modelled: result is an uninterpreted function of target_giname')
 contract(T + 'lookup_giname',
          params={'self': 'Transformer', 'name': 'str'},
          returns='Node?', pure_keys=['name'], trusted=True, raises={'KeyError': 'maybe'},
+         ensures={'registered': "result is None or result.namespace is not None"},
          note='same uninterpreted function family as lookup_typenode')
 contract(T + 'resolve_aliases',
          params={'self': 'Transformer', 'typenode': 'Node|Type?'},
          returns='Node|Type?', pure_keys=['typenode'], trusted=True,
          ensures={'not_alias': "not isinstance(result, ast.Alias) or isinstance(typenode, ast.Alias)",
                   'identity': "implies(not isinstance(typenode, ast.Alias), result is typenode)",
+                  'registered': "implies(isinstance(result, ast.Node) and isinstance(typenode, ast.Alias), result.namespace is not None)",
                   'fundamental_has_ctype': "implies(isinstance(result, ast.Type) and isinstance(typenode, ast.Alias), result.ctype is not None)"},
          note='alias chains are not modelled')
 
